@@ -1,4 +1,51 @@
-(* C03 - placeholder until the theorems are in place. *)
-Require Import RQ.Base RQ.Target.
-Theorem C03_placeholder : True. Proof. exact I. Qed.
-Print Assumptions C03_placeholder.
+(* C03 - Each pixel is composited by the blend mode's formula weighted by coverage. *)
+Require Import RQ.Base RQ.F32 RQ.Rect RQ.Pixel RQ.Raster RQ.PathF RQ.Shader RQ.Surface RQ.Target RQ.TargetProofs RQ.OpsProofs.
+
+(* (1) After any composite that returns, a pixel (X,Y) of the current destination - the surface or a
+   layer at any origin: `didx` is the only place the origin enters - is, inside the effective
+   rectangle, the blitter's function of ITS OWN inputs only: the shader's colour at (X,Y) (source colour
+   scaled by the global alpha), its previous value, the mask byte at (X,Y) minus the mask origin, and
+   the clip byte at (X,Y); outside it is unchanged. No neighbouring pixel, no position-dependent term. *)
+Theorem C03_composite_pixel_formula : forall st src mask mr rect0 blend alpha st',
+  d_probe st = 0 -> composite st src mask mr rect0 blend alpha = Ok st' ->
+  match xf_inverse (d_ctm st) with
+  | None => st' = st
+  | Some ti =>
+      let dest := fst (dest_of st) in let db := snd (dest_of st) in
+      let r := r_inter (r_inter (r_inter rect0 (clip_bounds st)) db) mr in
+      if r_empty r then st' = st else
+      let k := choose_blitter (has_mask mask) (top_clip_mask st) blend in
+      let sh := choose_shader ti src alpha in
+      exists dest', st' = set_dest st dest' /\ zlen dest' = zlen dest /\
+        forall X Y, x0 db <= X < x1 db -> 0 <= didx db X Y < zlen dest ->
+          if r_in r X Y
+          then blit_px k (shade sh X Y) (zn dest (didx db X Y)) (mask_at mask mr X Y) (clip_byte k (d_w st) X Y)
+               = Ok (zn dest' (didx db X Y))
+          else zn dest' (didx db X Y) = zn dest (didx db X Y)
+  end.
+Proof. exact composite_spec. Qed.
+Print Assumptions C03_composite_pixel_formula.
+
+(* (2) the function: no mask -> blend(src,dst); mask -> SrcOver: source-over scaled by coverage (x clip
+   coverage), other modes: interpolation between dst and blend(src,dst) by coverage (x clip coverage) *)
+Theorem C03_formula : forall has_m clipmask blend src dst m c,
+  blit_px (choose_blitter has_m clipmask blend) src dst m c =
+  match has_m, clipmask with
+  | false, _ => blend_px blend src dst
+  | true, None => if mode_eqb blend SrcOver then Ok (if m =? 0 then dst else over_in src dst m) else blend_mask_px blend src dst m
+  | true, Some _ => if mode_eqb blend SrcOver then Ok (if (m =? 0) || (c =? 0) then dst else over_in_in src dst m c)
+                    else blend_mask_clip_px blend src dst m c
+  end.
+Proof. exact blitter_formula. Qed.
+Print Assumptions C03_formula.
+
+(* (3) every drawing call is at most one such composite (so (1) describes fill, stroke, fill_rect, mask,
+   draw_image_*, the clipped clear; the unclipped clear writes the colour itself) *)
+Theorem C03_drawing_call_is_one_composite : forall st o st',
+  drawing_op o = true -> step_op st o = Ok st' -> effect st st'.
+Proof. exact drawing_op_effect. Qed.
+Print Assumptions C03_drawing_call_is_one_composite.
+
+(* non-vacuity: a half-covered SrcOver pixel; 0x80 coverage of opaque white over 0xff000000 *)
+Example C03_example : blit_px (choose_blitter true None SrcOver) 4294967295 4278190080 128 0 = Ok 4286611584.
+Proof. vm_compute. reflexivity. Qed.
